@@ -321,6 +321,51 @@ def drive_pipeline(res, ctx, rng, fams):
         res.count('pipeline_decoders_driven')
 
 
+def sampler_composites(res, ctx, rng, fams):
+    """The sampler trace carries the callstack flags of its own header record and the thread-state bits of its own
+    thread-data record - also when samples of several threads are interleaved in the stream (per-CPU buffers merged)."""
+    for it in range(ctx.pick(60, 2000)):
+        nthreads = rng.choice((1, 2, 2, 3))
+        progs, words = [], []
+        for t in range(nthreads):
+            cs = rng.getrandbits(9) | (rng.getrandbits(3) << 9 if rng.random() < 0.2 else 0)
+            ti = rng.getrandbits(7) | (rng.getrandbits(20) << 16 if rng.random() < 0.5 else 0)
+            words.append((cs, ti))
+            progs.append([H.A('PERF_Event', H.START, (0x9 | (rng.getrandbits(14) & ~0x9), t, 0, 0)),
+                          H.thd_data(100 + t, 20 + t, 0, ti), H.stk_uhdr(cs, 4), H.stk_udata([1, 2, 3, 4]),
+                          H.A('PERF_Event', H.END, (0, 0, 0, 0))])
+        order = H.round_robin(progs) if it % 2 else H.random_interleaving(rng, progs)
+        events = H.materialize([(20 + t, progs[t][i]) for t, i in order])
+        parser = ev.new_parser()
+        case = {'events': [ev.ev_to_case(e) for e in events]}
+        try:
+            traces = [t for t in (parser.feed(e) for e in events) if t is not None]
+        except Exception as x:
+            res.violation(f'c11-sampler-raises-{core.exc_name(x)}', f'{x!r}', case)
+            return
+        for tr in traces:
+            if type(tr).__name__ != 'PerfEvent':
+                continue
+            cs, ti = words[tr.ktraces[0].tid - 20]
+            res.case(('sampler', cs, ti, nthreads))
+            res.count('sampler_composites_checked')
+            shown_cs = [f.name for f in (tr.cs_flags or [])]
+            bad = fams['callstack'].check(cs, shown_cs) if tr.cs_flags is not None else ('missing', 'sampler carries no callstack flags')
+            if bad:
+                res.violation(f'c11-callstack-{bad[0]}', f'sampler of thread {tr.ktraces[0].tid} ({nthreads} samples interleaved): '
+                              f'its header word is {hex(cs)}; {bad[1]}', case)
+                return
+            shown_ti = [f.name for f in tr.th_info.runmode] if tr.th_info is not None else None
+            bad = fams['kperfti'].check(ti & 0xffff, shown_ti) if shown_ti is not None else ('missing', 'sampler carries no thread info')
+            if bad:
+                res.violation(f'c11-kperfti-{bad[0]}', f'sampler of thread {tr.ktraces[0].tid} ({nthreads} samples interleaved): '
+                              f'its thread-data word is {hex(ti)}; {bad[1]}', case)
+                return
+            if shown_names(str(tr.th_info), fams['kperfti']) != shown_ti:
+                res.violation('c11-kperfti-text', f'{str(tr.th_info)!r} vs {shown_ti}', case)
+                return
+
+
 IOC_RE = re.compile(r"/\* _IOC\((.*?), '(.)', (\d+), (\d+)\) \*/", re.S)
 
 
@@ -387,6 +432,7 @@ def run(ctx):
         audit_enums(res, fams)
     drive_helpers(res, ctx, rng, fams)
     drive_pipeline(res, ctx, rng, fams)
+    sampler_composites(res, ctx, rng, fams)
     drive_ioctl(res, ctx, rng)
     if ctx.shard == 0:
         from pykdebugparser.trace_handlers import bsd
@@ -399,6 +445,7 @@ def run(ctx):
     res.require('helper_values', 1000)
     res.require('pipeline_renderings_checked', 100)
     res.require('ioctl_words_checked', 100)
+    res.require('sampler_composites_checked', 20)
     res.require('enum_values_compared_with_reference', 50)
     return res
 
